@@ -42,6 +42,14 @@ def register(reg, P):
     for k in (2, 3):
         fam[f"dim_mod_k{k}"] = ((lambda k: (lambda x: x.sum() + dimval(x.shape[0] % k).astype(jnp.float32)))(k), [(("B", 2), F32)])
     fam["dim_affine"] = (lambda x: x.sum() + dimval(3 * x.shape[0] - 2).astype(jnp.float32), [(("B", 2), F32)])
+    fam["dim_pow_plus_coeff"] = (lambda x: x.sum() + dimval(x.shape[0] ** 2 + 2 * x.shape[0]).astype(jnp.float32), [(("B", 2), F32)])
+    fam["dim_pow3_mixed"] = (lambda x: x.sum() + dimval(x.shape[0] ** 3 + 3 * x.shape[0] * x.shape[1] + x.shape[1] ** 2).astype(jnp.float32), [(("B", "N"), F32)])
+    fam["dim_two_syms_affine"] = (lambda x: x.sum() + dimval(2 * x.shape[0] + x.shape[1]).astype(jnp.float32), [(("B", "N"), F32)])
+    fam["dim_two_syms_prod_plus"] = (lambda x: x.sum() + dimval(x.shape[0] * x.shape[1] + x.shape[1]).astype(jnp.float32), [(("B", "N"), F32)])
+    fam["dim_two_syms_floordiv"] = (lambda x: x.sum() + dimval((x.shape[0] + 3 * x.shape[1]) // 2).astype(jnp.float32), [(("B", "N"), F32)])
+    fam["dim_two_inputs"] = (lambda x, y: x.sum() + y.sum() + dimval(x.shape[0] * 3 + y.shape[0]).astype(jnp.float32), [(("B", 2), F32), (("N", 2), F32)])
+    fam["dim_sym_axis1"] = (lambda x: x.sum() + dimval(x.shape[1] * 2 + 1).astype(jnp.float32), [((2, "N"), F32)])
+    fam["reshape_two_syms"] = (lambda x: x.reshape(2 * x.shape[1], 2 * x.shape[0]), [(("B", "N", 4), F32)])
     fam["dim_square"] = (lambda x: x.sum() + dimval(x.shape[0] * x.shape[0]).astype(jnp.float32), [(("B", 2), F32)])
     fam["dim_max"] = (lambda x: x.sum() + dimval(jax.export.symbolic_shape and max(x.shape[0], 3) if isinstance(x.shape[0], int) else jnp_max_dim(x.shape[0], 3)).astype(jnp.float32), [(("B", 2), F32)])
     fam["arange_dim"] = (lambda x: x[:, 0] + jnp.arange(x.shape[0], dtype=jnp.float32), [(("B", 2), F32)])
